@@ -246,3 +246,425 @@ Proof.
 Qed.
 
 End ACC.
+
+(* ====================================================================== *)
+(* ShardedFileAccessor.close(): faults, what was written, the retry. *)
+
+Section CLOSEP.
+Variable B : Type.
+Variable plain : list N -> B.
+Variable trunc : B -> B.
+Notation empty := (plain []).
+Notation prog := (prog B).
+
+(* [reach p cs a]: some sequence of replies drives p through the calls cs to
+   the result a.  Every interpreter (fault-free, single fault, schedule) ends
+   in a reachable result, so statements about all reachable results hold for
+   every fault position, every errno and every tree. *)
+Fixpoint reach {A} (p : prog A) (cs : list (call B)) (a : A) : Prop :=
+  match p with
+  | Ret x => cs = [] /\ a = x
+  | Do c k => exists r cs', cs = c :: cs' /\ reach (k r) cs' a
+  end.
+
+Lemma run_reach : forall A (p : prog A) t, exists cs, reach p cs (fst (run B empty t p)).
+Proof.
+  intros A p. induction p as [a | c k IH]; intro t.
+  - exists []. simpl. auto.
+  - simpl. destruct (exec_call B empty t c) as [r t']. destruct (IH r t') as [cs H].
+    exists (c :: cs), r, cs. auto.
+Qed.
+
+Lemma run_fault_reach : forall A (p : prog A) k e t,
+  exists cs, reach p cs (fst (run_fault B empty trunc k e t p)).
+Proof.
+  intros A p. induction p as [a | c kont IH]; intros k e t.
+  - exists []. destruct k; simpl; auto.
+  - destruct k as [|k']; simpl.
+    + destruct (run_reach A (kont (RErr e)) (fail_effect B trunc t c)) as [cs H].
+      exists (c :: cs), (RErr e), cs. auto.
+    + destruct (exec_call B empty t c) as [r t']. destruct (IH r k' e t') as [cs H].
+      exists (c :: cs), r, cs. auto.
+Qed.
+
+Lemma reach_pbindp : forall A C (p : prog A) (f : A -> prog C) cs a,
+  reach (pbindp B p f) cs a ->
+  exists cs1 x cs2, reach p cs1 x /\ reach (f x) cs2 a /\ cs = cs1 ++ cs2.
+Proof.
+  intros A C p f. induction p as [x | c k IH]; intros cs a H; simpl in H.
+  - exists [], x, cs. simpl. auto.
+  - destruct H as [r [cs' [E H']]]. subst cs.
+    destruct (IH r cs' a H') as [cs1 [x [cs2 [H1 [H2 E]]]]].
+    exists (c :: cs1), x, cs2. split; [simpl; exists r, cs1; auto|]. split; [exact H2 | simpl; congruence].
+Qed.
+
+(* ---------- what a reachable run of close has done ---------- *)
+
+Definition cpath (c : call B) : path :=
+  match c with
+  | CIsFile p | CExists p | CMakedirs p | CUnlink p | COpen p _ | CWrite p _ | CRead p | CClose p => p
+  end.
+Definition nwrites (cs : list (call B)) : nat :=
+  length (filter (fun c => match c with CWrite _ _ => true | _ => false end) cs).
+(* the content last written to a file *)
+Fixpoint last_written (f : path) (cs : list (call B)) : option B :=
+  match cs with
+  | [] => None
+  | c :: r =>
+      match last_written f r with
+      | Some d => Some d
+      | None => match c with CWrite p d => if path_eqb p f then Some d else None | _ => None end
+      end
+  end.
+Definition on_shard (d : shard_desc) (cs : list (call B)) : Prop :=
+  Forall (fun c => cpath c = sd_dir d \/ cpath c = sd_file d) cs.
+
+Ltac shard_calls := unfold on_shard; repeat (apply Forall_cons; [right; reflexivity|]); apply Forall_nil.
+
+Lemma idx_reach : forall d fuel j cs r st',
+  reach (idx_writes B plain d j fuel) cs (r, st') ->
+  on_shard d cs /\ (1 <= nwrites cs)%nat /\
+  match r with
+  | COk => st' = {| sh_dirty := false; sh_dead := sd_n d |} /\
+           last_written (sd_file d) cs = Some (plain (complete d))
+  | CIOErr => st' = {| sh_dirty := true; sh_dead := sd_n d |}
+  | CAttrErr => False
+  end.
+Proof.
+  intros d fuel. induction fuel as [|f IH]; intros j cs r st' H; simpl in H.
+  - destruct H as [r0 [cs0 [-> H]]]. destruct r0 as [b| |x|e]; simpl in H;
+      destruct H as [r1 [cs1 [-> H]]].
+    1-3: (destruct r1 as [b1| |x1|e1]; simpl in H; destruct H as [-> H]; inversion H; subst;
+          (split; [shard_calls|]); (split; [unfold nwrites; simpl; lia|]); try reflexivity;
+          (split; [reflexivity|]); simpl; rewrite path_eqb_refl; reflexivity).
+    destruct r1; simpl in H; destruct H as [-> H]; inversion H; subst;
+      (split; [shard_calls|]; split; [unfold nwrites; simpl; lia | reflexivity]).
+  - destruct H as [r0 [cs0 [-> H]]]. destruct r0 as [b| |x|e]; simpl in H.
+    4:{ destruct H as [r1 [cs1 [-> H]]]. destruct r1; simpl in H; destruct H as [-> H]; inversion H; subst;
+        (split; [shard_calls|]; split; [unfold nwrites; simpl; lia | reflexivity]). }
+    all: (destruct (IH (S j) cs0 r st' H) as [H1 [H2 H3]];
+          split; [constructor; [right; reflexivity | exact H1]|];
+          split; [unfold nwrites in *; simpl; lia|];
+          destruct r; try exact H3; destruct H3 as [H3 H4]; split; [exact H3|]; simpl; rewrite H4; reflexivity).
+Qed.
+
+Lemma data_reach : forall d fuel i cs r st',
+  reach (data_writes B plain d i fuel) cs (r, st') ->
+  on_shard d cs /\ (1 <= nwrites cs)%nat /\
+  match r with
+  | COk => st' = {| sh_dirty := false; sh_dead := sd_n d |} /\
+           last_written (sd_file d) cs = Some (plain (complete d))
+  | CIOErr => sh_dirty st' = true /\
+              ((sh_dead st' = i + nwrites cs - 1 /\ nwrites cs <= fuel)%nat \/
+               (sh_dead st' = sd_n d /\ fuel < nwrites cs)%nat)
+  | CAttrErr => False
+  end.
+Proof.
+  intros d fuel. induction fuel as [|f IH]; intros i cs r st' H; simpl in H.
+  - destruct (idx_reach d _ 0%nat cs r st' H) as [H1 [H2 H3]]. split; [exact H1|]. split; [exact H2|].
+    destruct r; try exact H3. subst st'. split; [reflexivity|]. right. split; [reflexivity | lia].
+  - destruct H as [r0 [cs0 [-> H]]]. destruct r0 as [b| |x|e]; simpl in H.
+    4:{ destruct H as [r1 [cs1 [-> H]]]. destruct r1; simpl in H; destruct H as [-> H]; inversion H; subst;
+        (split; [shard_calls|]; split; [unfold nwrites; simpl; lia|];
+         split; [reflexivity|]; left; unfold nwrites; simpl; split; lia). }
+    all: (destruct (IH (S i) cs0 r st' H) as [H1 [H2 H3]];
+          split; [constructor; [right; reflexivity | exact H1]|];
+          split; [unfold nwrites in *; simpl; lia|];
+          destruct r; try exact H3;
+          [destruct H3 as [H3 H4]; split; [exact H3|]; simpl; rewrite H4; reflexivity
+          |destruct H3 as [H3 [[H4 H5]|[H4 H5]]]; (split; [exact H3|]); unfold nwrites in *; simpl;
+           [left; split; lia | right; split; [exact H4 | lia]]]).
+Qed.
+
+Definition closed_of (x : shard_desc * shst) : shst :=
+  if sh_dirty (snd x) then {| sh_dirty := false; sh_dead := sd_n (fst x) |} else snd x.
+
+Ltac io_tail dead :=
+  split; [reflexivity|]; split; [reflexivity|];
+  destruct dead; [left; split; [reflexivity|]; unfold nwrites; simpl; rewrite Nat.min_0_r; reflexivity
+                 | right; split; [lia | reflexivity]].
+
+(* Shard.close: everything it can reach *)
+Lemma shard_reach : forall d st cs r st',
+  reach (shard_close_prog B plain d st) cs (r, st') ->
+  on_shard d cs /\
+  match r with
+  | COk => st' = closed_of (d, st) /\
+           (sh_dirty st = false /\ cs = [] \/
+            sh_dirty st = true /\ sh_dead st = 0%nat /\
+            last_written (sd_file d) cs = Some (plain (complete d)))
+  | CIOErr => sh_dirty st = true /\ sh_dirty st' = true /\
+              ((sh_dead st = 0%nat /\ sh_dead st' = Nat.min (sd_n d) (nwrites cs - 2)) \/
+               ((0 < sh_dead st)%nat /\ st' = st))
+  | CAttrErr => sh_dirty st = true /\ (0 < sh_dead st)%nat /\ st' = st /\
+                last_written (sd_file d) cs = Some (plain (sd_zero d))
+  end.
+Proof.
+  intros d [dirty dead] cs r st' H. unfold shard_close_prog in H. simpl sh_dirty in *. simpl sh_dead in *.
+  destruct dirty; simpl in H.
+  2:{ destruct H as [-> H]. inversion H; subst. split; [constructor|]. split; [reflexivity|]. left. auto. }
+  destruct H as [r0 [cs0 [-> H]]].
+  destruct r0 as [b| |x|e]; simpl in H.
+  4:{ destruct H as [-> H]. inversion H; subst. split; [unfold on_shard; repeat constructor; left; reflexivity|].
+      io_tail dead. }
+  all: destruct H as [r1 [cs1 [-> H]]]; destruct r1 as [b1| |x1|e1]; simpl in H.
+  all: try (destruct H as [-> H]; inversion H; subst;
+            split; [unfold on_shard; constructor; [left; reflexivity | constructor; [right; reflexivity | constructor]]|];
+            io_tail dead).
+  all: destruct H as [r2 [cs2 [-> H]]]; destruct r2 as [b2| |x2|e2]; simpl in H.
+  all: try (destruct H as [r3 [cs3 [-> H]]]; destruct r3; simpl in H; destruct H as [-> H]; inversion H; subst;
+            (split; [unfold on_shard; constructor; [left; reflexivity | repeat (constructor; [right; reflexivity|]); constructor]|]);
+            io_tail dead).
+  all: destruct dead as [|dd]; simpl in H.
+  all: try (destruct H as [r3 [cs3 [-> H]]]; destruct r3; simpl in H; destruct H as [-> H]; inversion H; subst;
+            (split; [unfold on_shard; constructor; [left; reflexivity | repeat (constructor; [right; reflexivity|]); constructor]|]);
+            try (split; [reflexivity|]; split; [lia|]; split; [reflexivity|];
+                 simpl; rewrite path_eqb_refl; reflexivity);
+            (split; [reflexivity|]; split; [reflexivity|]; right; split; [lia | reflexivity])).
+  all: destruct (data_reach d _ 0%nat cs2 r st' H) as [H1 [H2 H3]];
+       (split; [unfold on_shard; constructor; [left; reflexivity | repeat (constructor; [right; reflexivity|]); exact H1]|]);
+       destruct r; try contradiction.
+  all: try (destruct H3 as [H3 H4]; split; [exact H3|]; right; split; [reflexivity|]; split; [reflexivity|];
+            simpl; rewrite H4; reflexivity).
+  all: destruct H3 as [H3 [[H4 H5]|[H4 H5]]]; (split; [reflexivity|]); (split; [exact H3|]); left; (split; [reflexivity|]);
+       unfold nwrites in *; simpl; rewrite H4; unfold sd_n in *; lia.
+Qed.
+
+(* ---------- the whole close: every reachable result ---------- *)
+
+Fixpoint segs (l1 : list (shard_desc * shst)) (cs : list (call B)) : Prop :=
+  match l1 with
+  | [] => cs = []
+  | x :: r => exists ca cb, cs = ca ++ cb /\
+              reach (shard_close_prog B plain (fst x) (snd x)) ca (COk, closed_of x) /\ segs r cb
+  end.
+
+Theorem close_reach : forall l done cs r S',
+  reach (close_shards B plain l done) cs (r, S') ->
+  (r = COk /\ S' = rev done ++ map closed_of l /\ segs l cs) \/
+  (r <> COk /\ exists l1 x l2 ca cb stx,
+     l = l1 ++ x :: l2 /\ cs = ca ++ cb /\ segs l1 ca /\
+     reach (shard_close_prog B plain (fst x) (snd x)) cb (r, stx) /\
+     S' = rev done ++ map closed_of l1 ++ stx :: map snd l2).
+Proof.
+  induction l as [|[d st] l IH]; intros done cs r S' H.
+  - simpl in H. destruct H as [-> H]. inversion H; subst. left. simpl. rewrite app_nil_r. repeat split.
+  - simpl in H. apply reach_pbindp in H. destruct H as [cs1 [[res st'] [cs2 [H1 [H2 ->]]]]].
+    simpl fst in H2. simpl snd in H2. destruct res.
+    + pose proof (shard_reach _ _ _ _ _ H1) as [_ [Hst _]]. subst st'.
+      destruct (IH _ _ _ _ H2) as [[-> [-> Hs]] | [Hne [l1 [y [l2 [ca [cb [stx [-> [-> [Hs [Hr ->]]]]]]]]]]]].
+      * left. split; [reflexivity|]. split; [simpl; rewrite <- app_assoc; reflexivity|].
+        simpl. exists cs1, cs2. auto.
+      * right. split; [exact Hne|]. exists ((d, st) :: l1), y, l2, (cs1 ++ ca), cb, stx.
+        split; [reflexivity|]. split; [rewrite app_assoc; reflexivity|]. split; [simpl; exists cs1, ca; auto|].
+        split; [exact Hr|]. simpl. rewrite <- app_assoc. reflexivity.
+    + simpl in H2. destruct H2 as [-> H2]. inversion H2; subst. right. split; [discriminate|].
+      exists [], (d, st), l, [], cs1, st'. rewrite app_nil_r. simpl. auto.
+    + simpl in H2. destruct H2 as [-> H2]. inversion H2; subst. right. split; [discriminate|].
+      exists [], (d, st), l, [], cs1, st'. rewrite app_nil_r. simpl. auto.
+Qed.
+
+(* the calls of the successfully closed shards stay on those shards, and each
+   dirty one among them had intact buffers and was written completely *)
+Lemma lw_app_some : forall f ca cb x, last_written f cb = Some x -> last_written f (ca ++ cb) = Some x.
+Proof. induction ca as [|c ca IH]; intros cb x H; simpl; [exact H|]. rewrite (IH cb x H). reflexivity. Qed.
+
+Lemma lw_app_none : forall f ca cb, Forall (fun c => cpath c <> f) cb ->
+  last_written f (ca ++ cb) = last_written f ca.
+Proof.
+  intros f ca cb H. induction ca as [|c ca IH]; simpl.
+  - induction cb as [|c cb IHb]; [reflexivity|]. inversion H; subst. simpl. rewrite (IHb H3).
+    destruct c; try reflexivity. simpl in H2.
+    destruct (path_eqb p f) eqn:E; [apply path_eqb_eq in E; contradiction | reflexivity].
+  - rewrite IH. reflexivity.
+Qed.
+
+Definition files_apart (l : list (shard_desc * shst)) : Prop :=
+  forall i j x y, nth_error l i = Some x -> nth_error l j = Some y -> i <> j ->
+    sd_file (fst x) <> sd_file (fst y) /\ sd_file (fst x) <> sd_dir (fst y).
+
+Lemma segs_on : forall l1 cs, segs l1 cs ->
+  Forall (fun c => exists x, In x l1 /\ (cpath c = sd_dir (fst x) \/ cpath c = sd_file (fst x))) cs.
+Proof.
+  induction l1 as [|x l1 IH]; intros cs H; simpl in H.
+  - subst. constructor.
+  - destruct H as [ca [cb [-> [Hr Hs]]]]. apply Forall_app. split.
+    + destruct (shard_reach _ _ _ _ _ Hr) as [Ho _]. eapply Forall_impl; [|exact Ho].
+      intros c Hc. exists x. split; [left; reflexivity | exact Hc].
+    + eapply Forall_impl; [|exact (IH cb Hs)]. intros c [y [Hy Hc]]. exists y. split; [right; exact Hy | exact Hc].
+Qed.
+
+Lemma segs_complete : forall l1 cs, segs l1 cs -> files_apart l1 ->
+  forall x, In x l1 -> sh_dirty (snd x) = true ->
+  sh_dead (snd x) = 0%nat /\ last_written (sd_file (fst x)) cs = Some (plain (complete (fst x))).
+Proof.
+  induction l1 as [|y l1 IH]; intros cs Hs Hfa x Hin Hd; [contradiction|].
+  simpl in Hs. destruct Hs as [ca [cb [-> [Hr Hrest]]]].
+  assert (Hfa' : files_apart l1).
+  { intros i j a b Ha Hb Hij. apply (Hfa (S i) (S j) a b); simpl; auto. }
+  destruct Hin as [-> | Hin].
+  - destruct (shard_reach _ _ _ _ _ Hr) as [_ [_ [[Hc _] | [_ [Hdead Hlw]]]]]; [congruence|].
+    split; [exact Hdead|]. rewrite lw_app_none; [exact Hlw|].
+    eapply Forall_impl; [|exact (segs_on l1 cb Hrest)]. intros c [z [Hz Hc]].
+    apply In_nth_error in Hz. destruct Hz as [j Hj].
+    destruct (Hfa 0%nat (S j) x z eq_refl Hj ltac:(discriminate)) as [H1 H2].
+    destruct Hc as [Hc|Hc]; rewrite Hc; congruence.
+  - destruct (IH cb Hrest Hfa' x Hin Hd) as [H1 H2]. split; [exact H1 | apply lw_app_some; exact H2].
+Qed.
+
+(* ---------- (a) a failing primitive makes close fail with an I/O error ---------- *)
+
+Fixpoint fault_safeP {A} (P : A -> Prop) (p : prog A) : Prop :=
+  match p with
+  | Ret _ => True
+  | Do c k => (forall e t, P (fst (run B empty t (k (RErr e))))) /\ forall r, fault_safeP P (k r)
+  end.
+
+Theorem fault_safeP_sound : forall A (P : A -> Prop) (p : prog A), fault_safeP P p ->
+  forall k e t,
+    P (fst (run_fault B empty trunc k e t p)) \/
+    run_fault B empty trunc k e t p = run B empty t p.
+Proof.
+  intros A P p. induction p as [a | c kont IH]; intros Hs k e t.
+  - right. destruct k; reflexivity.
+  - destruct Hs as [He Hr]. destruct k as [|k'].
+    + left. simpl. apply He.
+    + simpl. destruct (exec_call B empty t c) as [r t'] eqn:Ec.
+      destruct (IH r (Hr r) k' e t') as [H|H]; [left; exact H | right; exact H].
+Qed.
+
+Lemma run_pbindp : forall A C (p : prog A) (f : A -> prog C) t,
+  run B empty t (pbindp B p f) = let '(a, t') := run B empty t p in run B empty t' (f a).
+Proof.
+  intros A C p f. induction p as [a | c k IH]; intro t; simpl; [reflexivity|].
+  destruct (exec_call B empty t c) as [r t']. apply IH.
+Qed.
+
+Lemma fsP_bind : forall A C (Pi : A -> Prop) (P : C -> Prop) (p : prog A) (f : A -> prog C),
+  fault_safeP Pi p -> (forall x, Pi x -> forall t, P (fst (run B empty t (f x)))) ->
+  (forall x, fault_safeP P (f x)) -> fault_safeP P (pbindp B p f).
+Proof.
+  intros A C Pi P p f. induction p as [a | c k IH]; intros Hp Hf Hs; simpl.
+  - apply Hs.
+  - destruct Hp as [He Hr]. split.
+    + intros e t. rewrite run_pbindp. specialize (He e t).
+      destruct (run B empty t (k (RErr e))) as [a t']. apply Hf. exact He.
+    + intro r. apply IH; auto.
+Qed.
+
+Definition is_io (x : cres * shst) : Prop := fst x = CIOErr.
+
+Lemma safe_idx : forall d fuel j, fault_safeP is_io (idx_writes B plain d j fuel).
+Proof.
+  intros d fuel. induction fuel as [|f IH]; intro j; simpl.
+  - split; [intros e t; reflexivity|]. intros [b| |x|e]; simpl;
+      (split; [intros e' t; reflexivity | intros r; destruct r; exact I]).
+  - split; [intros e t; reflexivity|]. intros [b| |x|e]; simpl; try apply IH.
+    split; [intros e' t; reflexivity | intros r; destruct r; exact I].
+Qed.
+
+Lemma safe_data : forall d fuel i, fault_safeP is_io (data_writes B plain d i fuel).
+Proof.
+  intros d fuel. induction fuel as [|f IH]; intro i; simpl; [apply safe_idx|].
+  split; [intros e t; reflexivity|]. intros [b| |x|e]; simpl; try apply IH.
+  split; [intros e' t; reflexivity | intros r; destruct r; exact I].
+Qed.
+
+Lemma safe_shard : forall d st, fault_safeP is_io (shard_close_prog B plain d st).
+Proof.
+  intros d st. unfold shard_close_prog. destruct (sh_dirty st); simpl; [|exact I].
+  split; [intros e t; reflexivity|]. intros [b| |x|e]; simpl; try exact I;
+    (split; [intros e' t; reflexivity|]; intros [b1| |x1|e1]; simpl; try exact I;
+     (split; [intros e2 t; reflexivity|]; intros [b2| |x2|e2]; simpl;
+      try (split; [intros e3 t; reflexivity | intros r; destruct r; exact I]);
+      (destruct (sh_dead st); [apply safe_data|];
+       simpl; split; [intros e3 t; reflexivity | intros r; destruct r; exact I]))).
+Qed.
+
+Lemma safe_close : forall l done, fault_safeP (fun x : cres * list shst => fst x = CIOErr) (close_shards B plain l done).
+Proof.
+  induction l as [|[d st] l IH]; intro done; simpl; [exact I|].
+  apply (fsP_bind _ _ is_io); [apply safe_shard | |].
+  - intros [res st'] Hx t. unfold is_io in Hx. simpl in Hx. subst res. reflexivity.
+  - intros [res st']. simpl. destruct res; [apply IH | exact I | exact I].
+Qed.
+
+Theorem close_fault_to_error : forall l k e t,
+  fst (fst (run_fault B empty trunc k e t (close_prog B plain l))) = CIOErr \/
+  run_fault B empty trunc k e t (close_prog B plain l) = run B empty t (close_prog B plain l).
+Proof. intros l k e t. apply (fault_safeP_sound _ _ _ (safe_close l [])). Qed.
+
+(* ---------- (c) the retry ---------- *)
+
+(* the shard list of a second close on the state the first one left *)
+Lemma retry_descs_eq : forall l1 x l2 stx,
+  retry_descs (l1 ++ x :: l2) (map closed_of l1 ++ stx :: map snd l2)
+  = map (fun y => (fst y, closed_of y)) l1 ++ (fst x, stx) :: l2.
+Proof.
+  intros l1 x l2 stx. unfold retry_descs. induction l1 as [|y l1 IH]; simpl.
+  - f_equal. induction l2 as [|[d s] l2 IHl]; simpl; [reflexivity | f_equal; exact IHl].
+  - f_equal. exact IH.
+Qed.
+
+(* a second close can only return normally if the buffers of the shard that
+   failed were all still there ... *)
+Theorem retry_ok_needs_buffers : forall l1 dx stx l2 cs2 S2,
+  sh_dirty stx = true ->
+  reach (close_prog B plain (l1 ++ (dx, stx) :: l2)) cs2 (COk, S2) -> sh_dead stx = 0%nat.
+Proof.
+  intros l1 dx stx l2 cs2 S2 Hd H. unfold close_prog in H.
+  destruct (close_reach _ _ _ _ _ H) as [[_ [_ Hs]] | [Hne _]]; [|congruence].
+  clear H. revert cs2 Hs. induction l1 as [|y l1 IH]; intros cs2 Hs; simpl in Hs.
+  - destruct Hs as [ca [cb [_ [Hr _]]]]. simpl in Hr.
+    destruct (shard_reach _ _ _ _ _ Hr) as [_ [_ [[Hc _] | [_ [H0 _]]]]]; [congruence | exact H0].
+  - destruct Hs as [ca [cb [_ [_ Hs]]]]. exact (IH cb Hs).
+Qed.
+
+(* ... and then every shard that was still dirty is written completely (the
+   others are not touched: no call at all) *)
+Theorem retry_ok_complete : forall l cs2 S2,
+  reach (close_prog B plain l) cs2 (COk, S2) -> files_apart l ->
+  S2 = map closed_of l /\
+  forall x, In x l -> sh_dirty (snd x) = true ->
+    sh_dead (snd x) = 0%nat /\ last_written (sd_file (fst x)) cs2 = Some (plain (complete (fst x))).
+Proof.
+  intros l cs2 S2 H Hfa. unfold close_prog in H.
+  destruct (close_reach _ _ _ _ _ H) as [[_ [HS Hs]] | [Hne _]]; [|congruence].
+  split; [exact HS|]. exact (segs_complete l cs2 Hs Hfa).
+Qed.
+
+(* otherwise the second close raises: it is an I/O error or the
+   AttributeError, and in the latter case the shard file has just been
+   truncated to the zero header *)
+Lemma skip_clean : forall l1 rest done, Forall (fun y => sh_dirty (snd y) = false) l1 ->
+  close_shards B plain (l1 ++ rest) done = close_shards B plain rest (rev (map snd l1) ++ done).
+Proof.
+  induction l1 as [|[d st] l1 IH]; intros rest done Hc; [reflexivity|].
+  inversion Hc as [|? ? Hd Hrest]; subst. simpl in Hd. simpl.
+  unfold shard_close_prog. rewrite Hd. simpl. rewrite (IH rest (st :: done) Hrest).
+  rewrite <- app_assoc. reflexivity.
+Qed.
+
+Theorem retry_raises : forall l1 dx stx l2 cs2 r2 S2,
+  sh_dirty stx = true -> (0 < sh_dead stx)%nat ->
+  Forall (fun y => sh_dirty (snd y) = false) l1 ->
+  reach (close_prog B plain (l1 ++ (dx, stx) :: l2)) cs2 (r2, S2) ->
+  r2 <> COk /\ S2 = map snd l1 ++ stx :: map snd l2 /\
+  (r2 = CAttrErr -> last_written (sd_file dx) cs2 = Some (plain (sd_zero dx))).
+Proof.
+  intros l1 dx stx l2 cs2 r2 S2 Hd Hdead Hclean H. unfold close_prog in H.
+  rewrite (skip_clean l1 _ [] Hclean) in H. simpl in H. rewrite app_nil_r in H.
+  apply reach_pbindp in H. destruct H as [cs1 [[res st'] [cs3 [H1 [H2 ->]]]]].
+  pose proof (shard_reach _ _ _ _ _ H1) as [_ Hs]. simpl fst in H2. simpl snd in H2.
+  destruct res.
+  - destruct Hs as [_ [[Hc _] | [_ [H0 _]]]]; [congruence | lia].
+  - simpl in H2. destruct H2 as [-> H2]. inversion H2; subst.
+    destruct Hs as [_ [_ [[H0 _] | [_ ->]]]]; [lia|].
+    split; [discriminate|]. split; [rewrite rev_involutive; reflexivity | discriminate].
+  - simpl in H2. destruct H2 as [-> H2]. inversion H2; subst.
+    destruct Hs as [_ [_ [-> Hlw]]].
+    split; [discriminate|]. split; [rewrite rev_involutive; reflexivity|].
+    intros _. rewrite app_nil_r. exact Hlw.
+Qed.
+
+End CLOSEP.
